@@ -27,6 +27,8 @@ type c11rt struct {
 	calls    [][]string // request identities per HTTP call, in arrival order
 	failWith string     // "", "transport", "status", "badjson"
 	failReq  string     // the call containing this request identity fails
+	// healthy answers carry "errors": []
+	emptyErrors bool
 }
 
 func (t *c11rt) RoundTrip(r *http.Request) (*http.Response, error) {
@@ -51,6 +53,23 @@ func (t *c11rt) RoundTrip(r *http.Request) (*http.Response, error) {
 		switch t.failWith {
 		case "transport":
 			return nil, errors.New("injected transport error")
+		case "transport-eof":
+			// the connection broke after the service received the call
+			return nil, fmt.Errorf("read tcp: %w", io.EOF)
+		case "graphql-errors", "errors-empty-datanull":
+			// the element answering the marked request failed: errors and no data / an errors key carrying nothing and no data
+			out := make([]map[string]interface{}, len(reqs))
+			for i, q := range reqs {
+				out[i] = map[string]interface{}{"data": map[string]interface{}{"echo": q.Query}}
+				if q.Query == t.failReq {
+					out[i] = map[string]interface{}{"data": nil, "errors": []interface{}{}}
+					if t.failWith == "graphql-errors" {
+						out[i]["errors"] = []interface{}{map[string]interface{}{"message": "boom"}}
+					}
+				}
+			}
+			b, _ := json.Marshal(out)
+			return &http.Response{StatusCode: 200, Body: io.NopCloser(bytes.NewReader(b)), Header: http.Header{}}, nil
 		case "status":
 			return &http.Response{StatusCode: 500, Body: io.NopCloser(strings.NewReader("boom")), Header: http.Header{}}, nil
 		case "status-validbody":
@@ -67,6 +86,9 @@ func (t *c11rt) RoundTrip(r *http.Request) (*http.Response, error) {
 	out := make([]map[string]interface{}, len(reqs))
 	for i, q := range reqs {
 		out[i] = map[string]interface{}{"data": map[string]interface{}{"echo": q.Query}}
+		if t.emptyErrors {
+			out[i]["errors"] = []interface{}{} // healthy answers that spell out an empty errors list
+		}
 	}
 	b, _ := json.Marshal(out)
 	return &http.Response{StatusCode: 200, Body: io.NopCloser(bytes.NewReader(b)), Header: http.Header{}}, nil
@@ -75,7 +97,10 @@ func (t *c11rt) RoundTrip(r *http.Request) (*http.Response, error) {
 func c11Harness(n, m int, failWith string, failIdx int) explore.Harness {
 	return func() (func(), func(*vrt.Sched) (string, string)) {
 		rt := &c11rt{failWith: failWith}
-		if failWith != "" {
+		if failWith == "ok-empty-errors" {
+			rt.failWith, rt.emptyErrors = "", true
+		}
+		if rt.failWith != "" {
 			rt.failReq = fmt.Sprintf("q%d", failIdx)
 		}
 		var res []map[string]interface{}
@@ -162,7 +187,7 @@ func c11Verdict(n, m int, rt *c11rt, res []map[string]interface{}, err error, re
 func init() {
 	Specs["C11"] = &Spec{
 		ID: "C11",
-		Rule: "scenario = (N requests, max batch size m, failure kind, failing chunk); all completion orders of the concurrent chunk requests of the real MultiOpQueryer.Query are enumerated " +
+		Rule: "scenario = (N requests, max batch size m, failure kind in {none, none with answers that spell out empty errors lists, transport error, transport error wrapping EOF (connection broke after the call arrived), status 500, 502 with a well-formed body, non-JSON body, GraphQL errors in the element, empty errors list with null data}, failing chunk); all completion orders of the concurrent chunk requests of the real MultiOpQueryer.Query are enumerated " +
 			"(all interleavings, state-cached, unbounded); outcome = verdict plus arrival order of the HTTP calls; non-trivial = >1 execution",
 		Assumptions: []string{
 			"the in-memory RoundTripper stands for the service; one scheduling point while the call is in flight",
@@ -196,9 +221,11 @@ func init() {
 					if n == 0 {
 						continue
 					}
-					kinds := []string{"transport"}
+					out = append(out, Scenario{Name: fmt.Sprintf("N=%d m=%d no-fault, answers with empty errors lists", n, m), Atoms: []string{"nofault", "ok-empty-errors"},
+						Opt: explore.Options{Bound: -1, Cache: true, StartBranch: true}, H: c11Harness(n, m, "ok-empty-errors", 0)})
+					kinds := []string{"transport", "transport-eof"}
 					if n <= 4 || tier == "thorough" {
-						kinds = []string{"transport", "status", "badjson", "status-validbody"}
+						kinds = []string{"transport", "transport-eof", "status", "badjson", "status-validbody", "graphql-errors", "errors-empty-datanull"}
 					}
 					for _, k := range kinds {
 						for c := 0; c < chunks; c++ {
